@@ -210,3 +210,6 @@ func vfFileJSON(name string, out any) bool { return false }
 // RPC decoder queue (engine only)
 func vfQueueDecode(v any)    {}
 func vfDecodeQueueLen() int  { return 0 }
+
+func vfMlFaults()                      {}
+func vfOpaqueBytes(name string) []byte { return nil }
